@@ -19,11 +19,11 @@ Proof. exact prepare_while_active_refused. Qed.
    and none becomes active *)
 Theorem C17_refused_without_session :
   forall p a, active p a = false ->
-    (forall ok, fst (sstep_ev p (SExecute a ok)) = ENotInProgress) /\
+    (forall sw ok, fst (sstep_ev p (SExecute a sw ok)) = ENotInProgress) /\
     (forall sender valid, fst (sstep_ev p (SContribute a sender valid)) = ENotFound) /\
     (forall ok, fst (sstep_ev p (SCommit a ok)) = ENotInProgress) /\
     fst (sstep_ev p (SAbort a)) = ENotInProgress /\
-    (forall e, (exists ok, e = SExecute a ok) \/ (exists s v, e = SContribute a s v) \/ (exists ok, e = SCommit a ok) \/ e = SAbort a ->
+    (forall e, (exists sw ok, e = SExecute a sw ok) \/ (exists s v, e = SContribute a s v) \/ (exists ok, e = SCommit a ok) \/ e = SAbort a ->
        p_accounts (snd (sstep_ev p e)) = p_accounts p /\ active (snd (sstep_ev p e)) a = false).
 Proof. exact refused_without_session. Qed.
 Print Assumptions C17_refused_without_session.
